@@ -17,17 +17,23 @@ EXHAUSTIVE = {'quick': False, 'thorough': False}
 ASSUMPTIONS = ['float64 programs']
 TRUSTED_BASE = ['harness/tprog.py, harness/gen_dag.py']
 tprog.RESET_ROUTES = True
-ALLOW = ['add', 'mul', 'neg', 'sum', 'clone', 'self2', 'reshape', 'slice', 'unbind', 'stack', 'pow', 'mean']
+ALLOW = ['add', 'mul', 'neg', 'sum', 'clone', 'self2', 'reshape', 'slice', 'unbind', 'stack', 'pow', 'mean',
+         # nn ops that save something at forward time for their backward (probabilities, masks): a second sweep through the same node must find it intact
+         'relu', 'tanh', 'sigmoid', 'softmax', 'log_softmax', 'cross_entropy', 'cross_entropy']
 
 
 def gen_history(rng, tier, focus=False):
     """focus: histories dense in resets and in non-finite upstream gradients (an overflowed micro-batch followed by a reset)"""
     P = gen_dag.Prog()
-    shapes = [(3,), (2,), (2, 2), ()]
+    shapes = [(3,), (2,), (2, 2), (), (2, 3)]
     for _ in range(rng.randint(2, 3)):
         sh = rng.pick(shapes)
         P.add_leaf(sh, gen_dag.rand_data(rng, sh), rng.chance(.85))
-    evs = []          # ('op', node index) | ('bw', tid, g) | ('retain', tid) | ('zero', tid) | ('ctx', 'enter'|'exit')
+    if rng.chance(.6):     # logits and their labels, for the losses
+        P.add_leaf((2, 3), gen_dag.rand_data(rng, (2, 3)), True)
+        P.add_leaf((2,), [float(rng.randrange(2)) for _ in range(2)], False, 'i64')
+    flag = {}
+    evs = []          # ('setrg', leaf, 0|1) | ('op', node index) | ('bw', tid, g) | ('retain', tid) | ('zero', tid) | ('ctx', 'enter'|'exit')
     nev = rng.randint(4, 14 if tier == 'quick' else 60)
     in_ctx = False
     nbw = 0
@@ -52,13 +58,60 @@ def gen_history(rng, tier, focus=False):
         elif r < (0.68 if focus else 0.83):
             evs.append(('retain', rng.randrange(nt)))
         elif r < (0.97 if focus else 0.93):
-            leaves = [n['outs'][0] for n in P.nodes if n['kind'] == 'leaf']
-            evs.append(('zero', rng.pick(leaves)))
+            leaves = [n['outs'][0] for n in P.nodes if n['kind'] == 'leaf' and n.get('dt', 'f64') == 'f64']
+            if rng.chance(.3):      # freeze / unfreeze a leaf (the optimizer and module that reset it were built when it was created)
+                l = rng.pick(leaves)
+                flag[l] = not flag.get(l, P.nodes[P.owner[l]]['rg'])
+                evs.append(('setrg', l, int(flag[l])))
+            else:
+                evs.append(('zero', rng.pick(leaves)))
         else:
             evs.append(('ctx', 'exit' if in_ctx else 'enter')); in_ctx = not in_ctx
     if in_ctx:
         evs.append(('ctx', 'exit'))
     return P, evs, nbw
+
+
+def gen_repeat(rng, k):
+    """one node of an op that saves something at forward time (probabilities, masks, outputs), swept several times with
+    different upstream gradients, re-used inside a later graph, with resets in between"""
+    P = gen_dag.Prog()
+    x = P.add_leaf((2, 3), gen_dag.rand_data(rng, (2, 3)), True)
+    w = P.add_leaf((2, 3), gen_dag.rand_data(rng, (2, 3)), rng.chance(.7))
+    lab = P.add_leaf((2,), [float(rng.randrange(3)) for _ in range(2)], False, 'i64')
+    name = ['cross_entropy', 'softmax', 'log_softmax', 'relu', 'sigmoid', 'tanh'][k % 6]
+    a = P.add_op('mul', [x, w], [], [(2, 3)])[0]
+    if name == 'cross_entropy':
+        b = P.add_op(name, [a, lab], [show_ints([int(v) for v in P.nodes[P.owner[lab]]['data']])], [(2,)])[0]
+    elif name in ('softmax', 'log_softmax'):
+        b = P.add_op(name, [a], [rng.pick([0, 1, -1])], [(2, 3)])[0]
+    else:
+        b = P.add_op(name, [a], [], [(2, 3)])[0]
+    sb = P.tshape[b]
+    l1 = P.add_op('sum', [b], ['all', 0], [()])[0]
+    c2 = P.add_op('mul', [b, b], [], [sb])[0]
+    l2 = P.add_op('mean', [c2], ['all', 0], [()])[0]
+    g = lambda sh: gen_dag.rand_data(rng, sh, -2, 2)
+    ops = lambda *ns: [('op', P.owner[n]) for n in ns]
+    evs = ops(a, b, l1) + [('bw', l1, g(())), ('bw', l1, g(()))] + ([('zero', x)] if rng.chance(.5) else []) + [('bw', b, g(sb))] + \
+          ops(c2, l2) + [('bw', l2, g(())), ('bw', l1, g(())), ('zero', x), ('bw', l2, g(()))]
+    return P, evs, 6
+
+
+def gen_frozen_at_birth(rng):
+    """a leaf that does not require grad when it (and the optimizer / module that will reset it) is created, is unfrozen later,
+    accumulates, and is reset three times in a row — once through each route — with a backward call after every reset"""
+    P = gen_dag.Prog()
+    x = P.add_leaf((2,), gen_dag.rand_data(rng, (2,)), False)
+    y = P.add_leaf((2,), gen_dag.rand_data(rng, (2,)), True)
+    evs = [('setrg', x, 1)]
+    a = P.add_op('mul', [x, y], [], [(2,)])[0]; l = P.add_op('sum', [a], ['all', 0], [()])[0]
+    evs += [('op', P.owner[a]), ('op', P.owner[l]), ('bw', l, gen_dag.rand_data(rng, (), -2, 2))]
+    for _ in range(3):
+        evs += [('zero', x), ('bw', l, gen_dag.rand_data(rng, (), -2, 2)), ('zero', y), ('bw', a, gen_dag.rand_data(rng, (2,), -2, 2))]
+    if rng.chance(.5):
+        evs += [('setrg', y, 0), ('zero', x), ('bw', l, gen_dag.rand_data(rng, (), -2, 2)), ('setrg', y, 1), ('zero', y), ('bw', l, gen_dag.rand_data(rng, (), -2, 2))]
+    return P, evs, 8
 
 
 def to_lines(P, evs):
@@ -77,6 +130,8 @@ def to_lines(P, evs):
             out.append(f't retain {e[1]}')
         elif e[0] == 'zero':
             out.append(f't zero {e[1]}')
+        elif e[0] == 'setrg':
+            out.append(f't setrg {e[1]} {e[2]}')
         else:
             out.append(f't ctx {e[1]} 0')
         out += [f't grad {k}' for k in range(created)]
@@ -91,6 +146,10 @@ def cases(rng, tier):
     for _ in range(30 if tier == 'quick' else 600):
         P, evs, nbw = gen_history(rng, tier, focus=True)
         out.append(mk(P, evs, nbw))
+    for k in range(12 if tier == 'quick' else 240):
+        out.append(mk(*gen_repeat(rng, k)))
+    for _ in range(6 if tier == 'quick' else 120):
+        out.append(mk(*gen_frozen_at_birth(rng)))
     for P, evs in corpus():
         out.append(mk(P, evs, 2))
     if tier == 'thorough':
@@ -167,12 +226,14 @@ def distribution(cases):
 
 # ---- oracle: every backward call re-run in isolation on a fresh copy; leaf.grad must be the sum ----
 def _isolated(P, upto_nodes, root, g):
-    """leaf gradients of ONE backward call on a fresh build of the graph"""
-    order = [k for k, n in enumerate(P.nodes) if n['kind'] == 'leaf'] + [k for k in upto_nodes]
+    """leaf gradients of ONE backward call on a fresh build of the graph (`upto_nodes`: the op nodes built so far and, as
+    ('setrg', leaf, v) entries, the flag changes in between — a result records its operands according to the flags at build time)"""
     lines = []
     leaf_lines, _ = P.lines([k for k, n in enumerate(P.nodes) if n['kind'] == 'leaf'])
     lines += leaf_lines
     for k in upto_nodes:
+        if isinstance(k, tuple):
+            lines.append(f't setrg {k[1]} {k[2]}'); continue
         nd = P.nodes[k]
         lines.append(' '.join(['t op', nd['name'], show_ints(nd['ins'])] + [str(a) for a in nd['args']]))
     leaves = [n['outs'][0] for n in P.nodes if n['kind'] == 'leaf']
@@ -202,6 +263,8 @@ def oracle(c):
         line_out = io[pos]
         if e[0] == 'op':
             built.append(e[1]); created += len(P.nodes[e[1]]['outs'])
+        elif e[0] == 'setrg':
+            built.append(('setrg', e[1], e[2])); rg[e[1]] = bool(e[2])
         elif e[0] == 'zero':
             expect[e[1]] = np.zeros(P.tshape[e[1]])
         elif e[0] == 'bw' and len(e) > 3 and line_out != 'rejected':
